@@ -675,6 +675,14 @@ def correspond(ctx):
   def bump(d, k):
     d[str(k)] = d.get(str(k), 0) + 1
 
+  failures = {}                              # key -> shortest failing history found so far
+
+  def add_failure(cfg, ops, fail, minimal=False):
+    key = fail.get('key', f'fifo:{cfg["kind"]}:{cfg["wrap"]}')
+    if key in failures and (not minimal or len(failures[key]['ops']) <= len(ops)):
+      return
+    failures[key] = spec_failure_record(cfg, ops, fail)
+
   # (c) F7 probe -------------------------------------------------------------------------------
   f7 = probe_uniform_empty()
   if f7:
@@ -709,8 +717,8 @@ def correspond(ctx):
       for i in range(4):
         hist['outcome'][i] += res['stats']['outcomes'][i]
       hist['rolled_inserts'] += res['stats']['rolled']
-      if res['spec'] and len(spec_failures) < 4:
-        spec_failures.append(spec_failure_record(cfg, ops, res['spec']))
+      if res['spec']:
+        add_failure(cfg, ops, res['spec'])
   outs = C.run_driver(DRIVER, [ops_to_line(cfg, ops, res['idx']) for cfg, ops, res in cases])
   if len(outs) != len(cases):
     raise RuntimeError(f'driver returned {len(outs)} lines for {len(cases)} cases')
@@ -748,8 +756,8 @@ def correspond(ctx):
         ops = codes_to_ops(cfg, codes)
         res = run_history(cfg, ops, size_every=0)
         pcases.append((ops, res))
-        if res['spec'] and len(spec_failures) < 4:
-          spec_failures.append(spec_failure_record(cfg, ops, res['spec']))
+        if res['spec']:
+          add_failure(cfg, ops, res['spec'], minimal=True)
       pouts = C.run_driver(DRIVER, [ops_to_line(cfg, ops, res['idx']) for ops, res in pcases])
       for (ops, res), o in zip(pcases, pouts):
         d = compare_history(cfg, ops, res, o)
@@ -767,15 +775,16 @@ def correspond(ctx):
     walked.append((cfg, L, cnt, dig))
     exh_nodes += cnt
     exh_cfgs += 1
-    if fail and len(spec_failures) < 4:
+    if fail:
       ops = codes_to_ops(cfg, fail['codes'])
-      spec_failures.append(spec_failure_record(cfg, ops, dict(what=fail['what'], step=len(ops) - 1)))
+      add_failure(cfg, ops, dict(what=fail['what'], step=len(ops) - 1), minimal=True)
   lean_out = C.run_driver(DRIVER, [exh_line(cfg, L) for cfg, L, _, _ in walked])
   if len(lean_out) != len(walked):
     raise RuntimeError('driver returned a wrong number of exhaustive digests')
   for (cfg, L, cnt, dig), want in zip(walked, lean_out):
     if want != f'{cnt} {dig}' and len(disagreements) < 5:
       disagreements.append(localise(cfg, L))
+  spec_failures += list(failures.values())
   if reduced:
     ctx.notes.append(f'exhaustive walk shortened for {len(reduced)} configurations (time budget)')
   evaluations += exh_nodes
@@ -787,7 +796,7 @@ def correspond(ctx):
                                         dict(disagreements=disagreements)) if not f.get('probe')][:3]
   # de-duplicate spec failures by key
   seen, uniq = set(), []
-  for f in spec_failures:
+  for f in sorted(spec_failures, key=lambda f: (not f.get('probe'), len(f.get('ops', [])))):   # shortest per key
     if f['key'] not in seen:
       seen.add(f['key']); uniq.append(f)
   return dict(
